@@ -409,6 +409,15 @@ func (b *BlockWise[C]) handleReceivedMessage(w *responsewriter.ResponseWriter[C]
 			startSendingMessageBlock = block
 		}
 	case codes.POST, codes.PUT:
+		if !r.HasOption(message.Block1) {
+			if block, errG := r.GetOptionUint32(message.Block2); errG == nil {
+				if _, num, _, errD := DecodeBlockOption(block); errD == nil && num > 0 {
+					// request for a following block of a response which is not cached (anymore):
+					// the request cannot be executed again just to rebuild its response.
+					return errors.New("response to be continued is not available")
+				}
+			}
+		}
 		maxSZX = fitSZX(r, message.Block1, maxSZX)
 		errP := b.processReceivedMessage(w, r, maxSZX, next, message.Block1, message.Size1)
 		if errP != nil {
